@@ -220,6 +220,9 @@ func checkC07(c *Ctx) {
 	}
 	tableWrites := map[string]map[string]bool{}
 	for _, fn := range f.Prog.Funcs {
+		if f.IsNewHelper(fn) {
+			continue
+		}
 		ir.Walk(f.N.Func(fn), func(t ir.Term) bool {
 			app, ok := t.(*ir.App)
 			if !ok {
